@@ -695,6 +695,12 @@ def g_TrafficSign(r, sid=None):
             continue
         seen.add(k)
         els.append(e)
+    speed = [e for e in els if "additional_values" in e["kw"] and e["kw"]["additional_values"]["ids"]]
+    if speed and r.random() < 0.4:
+        # a second element with the same element id and other values (two speed limits on one post)
+        e = copy.deepcopy(r.choice(speed))
+        e["kw"]["additional_values"] = IDS([r.choice(["60", "70", "27.8"])])
+        els.insert(r.randrange(len(els) + 1), e)
     kw = dict(traffic_sign_id=r.choice(ID_POOL) + 2000 if sid is None else sid, traffic_sign_elements=L(els),
               first_occurrence=SET(some_ids(r, 0, 3)), position=pt(r))
     if r.random() < 0.6:
